@@ -142,7 +142,7 @@ impl Ctx {
     pub fn from_args() -> Ctx {
         pan::install_hook();
         let args: Vec<String> = std::env::args().collect();
-        let mut get = |name: &str| -> Option<String> {
+        let get = |name: &str| -> Option<String> {
             args.iter()
                 .position(|a| a == name)
                 .and_then(|i| args.get(i + 1).cloned())
